@@ -1,35 +1,76 @@
 (* Properties_C01jx.v — the JSON/XML half of C01 (save then load reproduces the value), to be merged into
    Properties_C01.v by the coordinator.  Statements only.  Level: PARTIAL — the theorems are about the adapter
-   model (JxModel.v) at the DOM level; RapidJSON / pugixml (DOM <-> text) enter as the tested, unproved assumption
-   that a DOM the writer accepts is reproduced by write + parse (H_rj; see props/C08.py: it is FALSE on the current
-   tree for doubles — finding F40 — and for non-UTF-8 streams — finding F27).
+   model (JxModel.v) at the DOM level; RapidJSON / pugixml (DOM <-> text) enter as the tested, unproved assumptions
+   H_rj / H_px: a DOM the writer accepts is reproduced by the library's write + parse (for XML: up to line-end
+   normalisation, see saved_view); props/C08.py tests them on every produced document.
 
    NOT PROVED: T_C01_xml_roundtrip_adapter_outside (the XML model's round trip outside its defect classes): only the
    refutations are proved for XML; the load-save-load fixed point; the stream / encoding axis (observed only). *)
 From BS Require Import Base UtfSpec JxJsonSpec JxXmlSpec JxModel JxProofs.
 Local Open Scope N_scope.
 
-(* full strength: for every well-typed value of every well-formed type, saving and loading into a fresh target gives
-   the value back.  The model of the current code falsifies it in three ways: a root-level uint32_t above INT32_MAX
-   (F28: Overflow on load), a NaN inside an array (F26: the truncated text does not parse), a map key with an embedded
-   U+0000 (F42: truncated key, value lost) *)
-Theorem T_C01_json_roundtrip_adapter_refuted : forall i2d,
-  (exists t v, ty_wf t = true /\ has_type t v = true /\ roundtrip_json i2d mkT t v = Some (Err EOverflow)) /\
-  (exists t v, ty_wf t = true /\ has_type t v = true /\ roundtrip_json i2d mkT t v = Some (Err EParse)) /\
-  (exists t v v', ty_wf t = true /\ has_type t v = true /\ roundtrip_json i2d mkT t v = Some (Ok v') /\ v' <> v).
-Proof. exact json_roundtrip_refuted. Qed.
-Print Assumptions T_C01_json_roundtrip_adapter_refuted.
+(* full strength: for every well-formed type of the universe (any nesting of vectors, maps, classes with distinct member
+   names) and every well-typed value, under both policies, saving and loading into a fresh target gives the value back, or
+   the save raises an exception (rt_good); and it raises only for a value that contains a non-finite double.  Holds of the
+   model of the current code (the former findings F26, F28, F42 are repaired in /repo) *)
+Theorem T_C01_json_roundtrip_adapter : forall i2d o t v,
+  ty_wf t = true -> has_type t v = true ->
+  forall r, roundtrip_json i2d o t v = Some r ->
+  rt_good v r /\ (val_nonfinite v = false -> r = LoadedBack (Ok v)).
+Proof. exact json_roundtrip. Qed.
+Print Assumptions T_C01_json_roundtrip_adapter.
 
-(* outside these three classes the round trip is exact: every type of the universe (any nesting of vectors, maps,
-   classes with distinct member names), every well-typed value, both policies *)
-Theorem T_C01_json_roundtrip_adapter_outside : forall i2d o t v,
-  ty_wf t = true -> has_type t v = true -> json_defect t v = false ->
-  forall r, roundtrip_json i2d o t v = Some r -> r = Ok v.
-Proof. exact json_roundtrip_outside. Qed.
-Print Assumptions T_C01_json_roundtrip_adapter_outside.
+(* regression cases of the repaired finding F42 / F42c: map keys with an embedded U+0000 *)
+Example T_C01_json_roundtrip_nul_key : forall i2d,
+  roundtrip_json i2d mkT (TyMap TyStr) (VObj [([97; 0], VStr [120]); ([98], VStr [121])]) =
+    Some (LoadedBack (Ok (VObj [([97; 0], VStr [120]); ([98], VStr [121])]))) /\
+  roundtrip_json i2d mkT (TyMap (TyMap TyStr)) (VObj [([97; 0], VObj [])]) = Some (LoadedBack (Ok (VObj [([97; 0], VObj [])]))).
+Proof. exact json_roundtrip_nul_key. Qed.
+Print Assumptions T_C01_json_roundtrip_nul_key.
+
+(* every integer type at the root keeps its value (the former finding F28 is repaired in /repo);
+   a NaN inside an array makes the save raise (the former finding F26 is repaired) *)
+Example T_C01_json_roundtrip_root_ints : forall i2d,
+  roundtrip_json i2d mkT (TyInt U32) (VInt 4294967295) = Some (LoadedBack (Ok (VInt 4294967295))) /\
+  roundtrip_json i2d mkT (TyInt I32) (VInt (-2147483648)) = Some (LoadedBack (Ok (VInt (-2147483648)))) /\
+  roundtrip_json i2d mkT (TyInt U64) (VInt 18446744073709551615) = Some (LoadedBack (Ok (VInt 18446744073709551615))).
+Proof. exact json_roundtrip_root_ints. Qed.
+Print Assumptions T_C01_json_roundtrip_root_ints.
+
+Example T_C01_json_roundtrip_nan : forall i2d,
+  roundtrip_json i2d mkT (TyVec TyDbl) (VArr [VDbl 0x3FF0000000000000; VDbl 0x7FF8000000000000; VDbl 0x4000000000000000]) = Some SaveRaises.
+Proof. exact json_roundtrip_nan. Qed.
+Print Assumptions T_C01_json_roundtrip_nan.
 
 Example T_C01_json_roundtrip_example : forall i2d,
   roundtrip_json i2d mkT (TyMap (TyVec (TyInt I64))) (VObj [([97], VArr [VInt (-9223372036854775808); VInt 7]); ([98; 233], VArr [])]) =
-  Some (Ok (VObj [([97], VArr [VInt (-9223372036854775808); VInt 7]); ([98; 233], VArr [])])).
+  Some (LoadedBack (Ok (VObj [([97], VArr [VInt (-9223372036854775808); VInt 7]); ([98; 233], VArr [])]))).
 Proof. exact json_roundtrip_mix_example. Qed.
 Print Assumptions T_C01_json_roundtrip_example.
+
+(* ---------------------------------------------------------------- XML *)
+
+(* the full statement fails in the model of the current code: a carriage return in a string comes back as a line
+   feed (J41: pugixml writes it literally into character data, line ends are normalised on reading) *)
+Theorem T_C01_xml_roundtrip_adapter_refuted : forall dtoa17 xstrtod,
+  roundtrip_xml dtoa17 xstrtod mkT None (TyVec TyStr) (VArr [VStr [97; 13; 98]]) = Some (Ok (VArr [VStr [97; 10; 98]])).
+Proof. exact xml_roundtrip_refuted. Qed.
+Print Assumptions T_C01_xml_roundtrip_adapter_refuted.
+
+(* the former findings F29, F29a, F29w are repaired in /repo: an empty container below the root, a class with attributes
+   only inside a container, a white-space-only string all come back *)
+Example T_C01_xml_roundtrip_repaired : forall dtoa17 xstrtod,
+  roundtrip_xml dtoa17 xstrtod mkT None (TyVec (TyVec (TyInt I32))) (VArr [VArr [VInt 1]; VArr []]) = Some (Ok (VArr [VArr [VInt 1]; VArr []])) /\
+  roundtrip_xml dtoa17 xstrtod mkT None (TyVec ty_attronly) (VArr [VObj [([120], VInt 1); ([116; 121; 112; 101], VStr [82])]]) =
+    Some (Ok (VArr [VObj [([120], VInt 1); ([116; 121; 112; 101], VStr [82])]])) /\
+  roundtrip_xml dtoa17 xstrtod mkT None (TyVec TyStr) (VArr [VStr [32]; VStr [97]; VStr []]) = Some (Ok (VArr [VStr [32]; VStr [97]; VStr []])).
+Proof. exact xml_roundtrip_repaired. Qed.
+Print Assumptions T_C01_xml_roundtrip_repaired.
+
+(* a value outside those classes: nested containers, attributes (markup characters, a line feed), a named root *)
+Example T_C01_xml_roundtrip_example : forall dtoa17 xstrtod,
+  roundtrip_xml dtoa17 xstrtod mkT (Some [83]) (TyMap (TyVec ty_attr))
+    (VObj [([107], VArr [VObj [([97], VInt (-5)); ([115], VStr [60; 34; 10]); ([98], VBool true); ([117], VInt 18446744073709551615); ([118], VInt 7); ([116], VStr [120; 32])]])]) =
+  Some (Ok (VObj [([107], VArr [VObj [([97], VInt (-5)); ([115], VStr [60; 34; 10]); ([98], VBool true); ([117], VInt 18446744073709551615); ([118], VInt 7); ([116], VStr [120; 32])]])])).
+Proof. exact xml_roundtrip_example. Qed.
+Print Assumptions T_C01_xml_roundtrip_example.
